@@ -50,6 +50,14 @@ fn gen_settle_day(rng: &mut Rng) -> i64 {
         3 => rng.i64_in(-2_500_000, -719_163),                    // before the common era
         1 => rng.i64_in(100_000, 130_000), // years 2243..2325: beyond i64 nanoseconds
         2 => rng.i64_in(-140_000, -100_000), // years 1586..1696
+        // dates that software uses as markers: the earliest and latest representable
+        // datetime, the ends of the four-digit years, the epoch
+        4 if rng.chance(0.5) => {
+            let epoch = chrono::NaiveDate::from_ymd_opt(1970, 1, 1).unwrap();
+            let lo = (chrono::NaiveDate::MIN - epoch).num_days();
+            let hi = (chrono::NaiveDate::MAX - epoch).num_days();
+            *rng.pick(&[lo, lo, lo + 1, hi, hi - 1, -719_162, 2_932_896, 0, -1])
+        }
         _ => rng.i64_in(10957, 22000),
     }
 }
@@ -59,6 +67,7 @@ fn gen_tod(rng: &mut Rng) -> Option<(u32, u32)> {
         0 => Some((rng.below(86_400) as u32, 0)),
         1 => Some((rng.below(86_400) as u32, rng.below(1_000_000_000) as u32)),
         2 => Some((86_399, 1_000_000_000 + rng.below(1_000_000_000) as u32)), // leap second
+        3 if rng.chance(0.3) => Some((86_399, 999_999_999)), // the last instant of a day
         _ => None,
     }
 }
@@ -79,6 +88,10 @@ pub enum Step {
     SetOrder { target: u8, order: u8 },
     /// replica := clone(primary)
     Fork,
+    /// a second market is built from the primary's CURRENT quotes under another base (same
+    /// pair list, another currency order) and probed in full; it is then dropped. Whatever the
+    /// library remembers from building it must not leak into the primary's next rebuild.
+    Sibling { base: Option<String> },
 }
 
 #[derive(Clone, Debug, Serialize, Deserialize, PartialEq)]
@@ -129,6 +142,25 @@ fn gen_level(rng: &mut Rng) -> f64 {
     }
 }
 
+/// Re-express a quote on the single variable fx_<lhs><rhs> (its own tag in the market).
+fn own_tag_quote(rng: &mut Rng, q: &mut Quote) {
+    let name = format!("fx_{}{}", q.lhs.to_lowercase(), q.rhs.to_lowercase());
+    let v = q.num.value();
+    let c = *rng.pick(&[1.0025, 0.5, 2.0, 1.0, -1.0, 1.1]);
+    q.num = if rng.chance(0.5) {
+        Num::D {
+            v: Fx::new(v),
+            g: vec![(name, Fx::new(c))],
+        }
+    } else {
+        Num::D2 {
+            v: Fx::new(v),
+            g: vec![(name, Fx::new(c))],
+            h: vec![(0, 0, Fx::new(*rng.pick(&[0.0, 2.0 / 110.0, 0.25, -0.5])))],
+        }
+    };
+}
+
 fn gen_quote_num(rng: &mut Rng) -> Num {
     let v = gen_level(rng);
     let kind = rng.weighted(&[60, 25, 15]) as u8;
@@ -163,6 +195,9 @@ pub fn generate(rng: &mut Rng, tier: Tier) -> Plan {
         (Some(e), true) => ((140.0 / (e.abs() + 0.5)).floor() as usize + 1).clamp(2, nmax),
         _ => n,
     };
+    // a market on very many variables (see below): 9..14 currencies, mostly a chain
+    let wide_pick = far_pick.is_none() && rng.chance(0.006);
+    let n = if wide_pick { rng.usize_in(9, 14) } else { n };
     // mostly ISO-like codes; sometimes any legal 3-byte code: digits, punctuation, quotes,
     // backslashes, control characters, non-ASCII and titlecase letters, near-identical codes
     const EXOTIC: &[&str] = &[
@@ -179,7 +214,7 @@ pub fn generate(rng: &mut Rng, tier: Tier) -> Plan {
     rng.shuffle(&mut names);
     let ccys: Vec<String> = names[..n].iter().map(|s| s.to_string()).collect();
     let outsider = names[n].to_string();
-    let shape = if far_chain { 1 } else { rng.below(3) };
+    let shape = if far_chain || (wide_pick && rng.chance(0.6)) { 1 } else { rng.below(3) };
     let mut quotes = Vec::new();
     let settle = if rng.chance(0.5) {
         Some(gen_settle_day(rng))
@@ -187,7 +222,7 @@ pub fn generate(rng: &mut Rng, tier: Tier) -> Plan {
         None
     };
     let tod = if settle.is_some() { gen_tod(rng) } else { None };
-    let float_only = rng.chance(0.3);
+    let float_only = !wide_pick && rng.chance(0.3);
     // rateslib's reciprocal rule squares its argument: keep every cross within 1e+-140 so
     // that no intermediate of ANY evaluation order under- or overflows
     let far_decade: Option<f64> =
@@ -244,6 +279,38 @@ pub fn generate(rng: &mut Rng, tier: Tier) -> Plan {
             }
         }
     }
+    // a quote that is a function of the market's own tag for that pair (the live rate fed
+    // back in, scaled or curved): ONE variable named exactly fx_<lhs><rhs>, non-unit
+    // sensitivity, own curvature
+    if !float_only && rng.chance(0.05) {
+        let i = rng.below(quotes.len() as u64) as usize;
+        own_tag_quote(rng, &mut quotes[i]);
+    }
+    // every quote with many private variables plus one common factor: the crosses then live
+    // on unions of a hundred and more variables
+    let wide = wide_pick;
+    if wide {
+        let per = rng.usize_in(10, 16);
+        let kind = if rng.chance(0.7) { 2 } else { 1 };
+        for (qi, q) in quotes.iter_mut().enumerate() {
+            let v = q.num.value();
+            let mut num = gen_num(rng, kind, v, per, &format!("q{}_", qi));
+            // force the full count of private variables
+            if let Num::D { g, .. } | Num::D2 { g, .. } = &mut num {
+                let mut k = g.len();
+                while g.len() < per {
+                    g.push((format!("q{}_w{}", qi, k), Fx::new(0.5 + 0.125 * (k % 7) as f64)));
+                    k += 1;
+                }
+                g.push(("mkt".to_string(), Fx::new(0.75 + 0.25 * (qi % 3) as f64)));
+            }
+            if let Num::D2 { g, h, .. } = &mut num {
+                let last = g.len() - 1;
+                h.push((last, last, Fx::new(0.3 * v)));
+            }
+            q.num = num;
+        }
+    }
     rng.shuffle(&mut quotes);
     let base = if rng.chance(0.5) {
         Some(rng.pick(&ccys).clone())
@@ -262,6 +329,7 @@ pub fn generate(rng: &mut Rng, tier: Tier) -> Plan {
     } else {
         rng.usize_in(2, if tier == Tier::Quick { 14 } else { 22 })
     };
+    let nsteps = if wide { nsteps.min(5) } else { nsteps };
     let mut steps = Vec::new();
     let mut forked = false;
     // the generator tracks the current quote list only to produce meaningful items
@@ -473,6 +541,11 @@ pub fn generate(rng: &mut Rng, tier: Tier) -> Plan {
             steps.push(Step::Update { target: t, items });
             continue;
         }
+        if rng.chance(0.04) {
+            let b = if rng.chance(0.8) { Some(rng.pick(&ccys).clone()) } else { None };
+            steps.push(Step::Sibling { base: b });
+            continue;
+        }
         match rng.weighted(&[40, 25, 12, 10, if forked { 1 } else { 6 }]) {
             0 => {
                 let mut items = gen_valid_items(rng, &cur, float_only);
@@ -512,6 +585,10 @@ pub fn generate(rng: &mut Rng, tier: Tier) -> Plan {
                     early.num = early.num.with_value(gen_level(rng));
                     let pos = rng.usize_in(0, last);
                     items.insert(pos, early);
+                }
+                if !float_only && rng.chance(0.03) && !items.is_empty() {
+                    let i = rng.below(items.len() as u64) as usize;
+                    own_tag_quote(rng, &mut items[i]);
                 }
                 let t = target(rng, forked);
                 if t == 0 {
@@ -888,6 +965,13 @@ fn probe(m: &Market, ctx: &str, step: usize, obs: &mut Obs) -> Result<(), Fail> 
             };
             digest_number(&mut h, &num);
             let s = see(&num);
+            if s.vars.len() >= 128 {
+                obs.count(if s.kind == 2 {
+                    "reach.second_order_rate_on_128_or_more_variables"
+                } else {
+                    "reach.rate_on_128_or_more_variables"
+                });
+            }
             match kind_seen {
                 None => kind_seen = Some(s.kind),
                 Some(k) => {
@@ -1095,13 +1179,43 @@ fn probe(m: &Market, ctx: &str, step: usize, obs: &mut Obs) -> Result<(), Fail> 
             }
 
             // ---- Hessian: cross * ( Lx Ly + sum_k s_k ( q_k,xy/q_k - q_k,x q_k,y / q_k^2 ) )
-            let m_ = model_names.len();
-            let goth = hess_of(&num, &model_names).unwrap();
+            // the names whose second derivatives are compared: all of them, or for markets
+            // on very many variables every variable that two quotes share, the first two of
+            // each quote on the path and a rotating spread of the rest (values and ALL
+            // first-order sensitivities are compared above in any case)
+            let hidx: Vec<usize> = if model_names.len() <= 48 {
+                (0..model_names.len()).collect()
+            } else {
+                obs.count("probe.hessian_on_a_subset_of_names");
+                let mut pick: BTreeSet<usize> = BTreeSet::new();
+                for (xi, x) in model_names.iter().enumerate() {
+                    let users = all_qd.iter().filter(|q| qd_grad(q, x) != 0.0).count();
+                    if users >= 2 && pick.len() < 12 {
+                        pick.insert(xi);
+                    }
+                }
+                for (q, _) in &qd {
+                    for (nm, _) in q.g.iter().take(2) {
+                        if let Ok(xi) = model_names.binary_search(nm) {
+                            pick.insert(xi);
+                        }
+                    }
+                }
+                let mm = model_names.len();
+                for r in 0..10 {
+                    pick.insert((r * mm / 10 + i * 7 + j * 3 + step) % mm);
+                }
+                pick.into_iter().collect()
+            };
+            let hnames: Vec<String> = hidx.iter().map(|k| model_names[*k].clone()).collect();
+            let m_ = hnames.len();
+            let goth = hess_of(&num, &hnames).unwrap();
             let mut hm = vec![0.0_f64; m_ * m_];
             for a in 0..m_ {
                 for b in 0..m_ {
-                    let (x, y) = (&model_names[a], &model_names[b]);
-                    let mut t = lx[a].mul(lx[b]);
+                    let (x, y) = (&hnames[a], &hnames[b]);
+                    let (ia, ib) = (hidx[a], hidx[b]);
+                    let mut t = lx[ia].mul(lx[ib]);
                     for (q, sgn) in &qd {
                         let (gx, gy, hxy) = (qd_grad(q, x), qd_grad(q, y), qd_hess(q, x, y));
                         if gx == 0.0 && gy == 0.0 && hxy == 0.0 {
@@ -1121,7 +1235,7 @@ fn probe(m: &Market, ctx: &str, step: usize, obs: &mut Obs) -> Result<(), Fail> 
                                 + (qd_grad(q, x) * qd_grad(q, y) / (q.v * q.v)).abs()
                         })
                         .sum::<f64>()
-                        + ax[a] * ax[b];
+                        + ax[ia] * ax[ib];
                     want.m += 4.0 * cabs * hfloor;
                     hm[a * m_ + b] = want.m;
                     let gotv = goth[a * m_ + b];
@@ -1175,7 +1289,9 @@ fn probe(m: &Market, ctx: &str, step: usize, obs: &mut Obs) -> Result<(), Fail> 
                             ),
                         ));
                     }
-                    for (yi, y) in model_names.iter().enumerate() {
+                }
+                for (xi, x) in hnames.iter().enumerate() {
+                    for (yi, y) in hnames.iter().enumerate() {
                         let mut rh = r.hess(x, y);
                         rh.m += hm[xi * m_ + yi];
                         if !rh.close(goth[xi * m_ + yi]) {
@@ -1305,6 +1421,39 @@ pub fn execute(plan: &Plan, obs: &mut Obs) -> Result<(), Fail> {
         let target: Option<usize>;
         let other_before: Option<(usize, u64)>;
         match step {
+            Step::Sibling { base } => {
+                let mut model = mk[0].model.clone();
+                let b = base.as_ref().map(|b| b.to_lowercase());
+                model = Model::new(&Setup {
+                    quotes: model.quotes.clone(),
+                    base: b.clone(),
+                    share_vars: model.share_vars,
+                });
+                let rates: Vec<FXRate> = to_fxrates(&model.quotes, model.share_vars)?;
+                let bc = match &b {
+                    Some(b) => Some(ccy(b)?),
+                    None => None,
+                };
+                let fx = match call(P, "FXRates::try_new", || FXRates::try_new(rates, bc))? {
+                    Ok(f) => f,
+                    Err(_) => {
+                        return Err(v(
+                            "valid-market-refused",
+                            "sibling",
+                            format!("step {}: a market of the current quotes under base {:?} was refused", stepno, b),
+                        ))
+                    }
+                };
+                let sib = Market { fx, model };
+                probe(&sib, "sibling", stepno, obs)?;
+                obs.count("op.sibling_market_with_another_base");
+                if b != mk[0].model.base {
+                    obs.count("reach.sibling_market_same_pairs_other_base");
+                }
+                ctx = "sibling";
+                target = None;
+                other_before = None;
+            }
             Step::Fork => {
                 let c = call(P, "FXRates::clone", || mk[0].fx.clone())?;
                 let model = mk[0].model.clone();
@@ -1746,7 +1895,7 @@ impl Scenario for C10 {
     }
     fn assumptions() -> Vec<String> {
         vec![
-            "positive finite quotes in 1e-4..1e4; distinct variable names per number; user variables never named fx_*".into(),
+            "positive finite quotes in 1e-4..1e4; distinct variable names per number; a user variable may carry the name of a tag (fx_<pair>), also of the quote's own pair".into(),
             "reversed-pair updates are not generated (the property does not state their outcome); a pair named twice in one update is read as: the later entry is the latest quote".into(),
             "numerical agreement is judged with a running first-order error bound (1e5 eps x magnitude of the terms summed), bit-exactness only where the code copies a number".into(),
             "the derivative order left behind by an accepted update is not asserted (not stated by the property)".into(),
